@@ -45,6 +45,7 @@ CONSTANTS MaxNodes,   \* node objects that may ever be created
           Faults,     \* channels may flip; new channels start not-open
           Membership, \* joins and leaves happen
           TrackLate,  \* timeouts leave a late arrival behind
+          Noise,      \* duplicate joins and leaves of unknown endpoints happen (no-ops for the heap)
           Light       \* TRUE: no End events (projection clauses are then covered by the
                       \* invariant Structural only); for the large dispatch/completion configs
 
@@ -191,7 +192,7 @@ AddSink(e) ==
         /\ UNCHANGED <<downq, late, neg>>
 
 JoinDup(e) ==
-  /\ Membership /\ e \in CurEps
+  /\ Membership /\ Noise /\ e \in CurEps
   /\ Emit(<<[e |-> "Join", ep |-> e], [e |-> "JoinDone", ep |-> e]>> \o StepEnd(load, ns, neg, heap, epn))
   /\ UNCHANGED ivars
 
@@ -210,7 +211,7 @@ RemoveSink(e) ==
         /\ UNCHANGED <<load, downq, epn, late, neg>>
 
 LeaveUnknown(e) ==
-  /\ Membership /\ e \notin CurEps
+  /\ Membership /\ Noise /\ e \notin CurEps
   /\ Emit(<<[e |-> "Leave", ep |-> e], [e |-> "LeaveDone", ep |-> e]>> \o StepEnd(load, ns, neg, heap, epn))
   /\ UNCHANGED ivars
 
